@@ -96,11 +96,13 @@ Theorem C07_inverse_gyration : forall (cell : option RV) (mass : nat -> R) (pos 
 Proof. exact thm_inverse_gyration. Qed.
 Print Assumptions C07_inverse_gyration.
 
-(* rmsd without rotation; when the group is centred it must be centred on the centre of the component's own reference positions *)
-Theorem C07_inverse_rmsd : forall (cell : option RV) (mass : nat -> R) (pos : RF) (ids : list nat) (refs : list RV) (center : option RV) (fc : R),
-  NoDup ids -> length refs = length ids -> rmsd_value Rops pos ids refs center <> 0 ->
-  (forall rc, center = Some rc -> vsum Rops refs = vscale Rops (ofnat Rops (length ids)) rc) ->
-  cvc_ft Rops PI cell mass pos (CRmsd ids refs center) (cvc_apply Rops PI cell mass pos (CRmsd ids refs center) fc) = fc.
+(* rmsd without rotation, with any number of permuted copies of the reference (atomPermutation): whichever copy is the closest, gradients and
+   inverse gradients use the same one; when the group is centred it must be centred on the centre of the reference positions *)
+Theorem C07_inverse_rmsd : forall (cell : option RV) (mass : nat -> R) (pos : RF) (ids : list nat) (refs : list RV) (extra : list (list RV)) (center : option RV) (fc : R),
+  NoDup ids -> (forall r, In r (refs :: extra) -> length r = length ids) ->
+  rmsd_value Rops pos ids (rmsd_best Rops pos ids refs extra center) center <> 0 ->
+  (forall rc, center = Some rc -> forall r, In r (refs :: extra) -> vsum Rops r = vscale Rops (ofnat Rops (length ids)) rc) ->
+  cvc_ft Rops PI cell mass pos (CRmsd ids refs extra center) (cvc_apply Rops PI cell mass pos (CRmsd ids refs extra center) fc) = fc.
 Proof. exact thm_inverse_rmsd. Qed.
 Print Assumptions C07_inverse_rmsd.
 
@@ -112,12 +114,13 @@ Proof. exact thm_inverse_eigenvector. Qed.
 Print Assumptions C07_inverse_eigenvector.
 
 (* rotated frames (the default fit of rmsd / eigenvector): the rotation matrix used at the step is an input of the model; whenever it is
-   orthogonal (R R^T = 1), rotating the forces into the frame of the gradients (read_total_forces) inverts rotating the applied forces back *)
-Theorem C07_inverse_rmsd_rotated : forall (cell : option RV) (mass : nat -> R) (pos : RF) (ids : list nat) (refs : list RV) (rotf : RF -> RM) (jdf : RF -> R) (fc : R),
-  NoDup ids -> length refs = length ids ->
+   orthogonal (R R^T = 1), rotating the forces into the frame of the gradients (read_total_forces) inverts rotating the applied forces back;
+   with atomPermutation copies as above *)
+Theorem C07_inverse_rmsd_rotated : forall (cell : option RV) (mass : nat -> R) (pos : RF) (ids : list nat) (refs : list RV) (extra : list (list RV)) (rotf : RF -> RM) (jdf : RF -> R) (fc : R),
+  NoDup ids -> (forall r, In r (refs :: extra) -> length r = length ids) ->
   (forall v : RV, mvmul Rops (rotf pos) (mtvmul Rops (rotf pos) v) = v) ->
-  rmsdrot_value Rops pos ids refs (rotf pos) <> 0 ->
-  cvc_ft Rops PI cell mass pos (CRmsdRot ids refs rotf jdf) (cvc_apply Rops PI cell mass pos (CRmsdRot ids refs rotf jdf) fc) = fc.
+  rmsdrot_value Rops pos ids refs (rotf pos) (rmsdrot_best Rops pos ids refs extra (rotf pos)) <> 0 ->
+  cvc_ft Rops PI cell mass pos (CRmsdRot ids refs extra rotf jdf) (cvc_apply Rops PI cell mass pos (CRmsdRot ids refs extra rotf jdf) fc) = fc.
 Proof. exact thm_inverse_rmsd_rotated. Qed.
 Print Assumptions C07_inverse_rmsd_rotated.
 
@@ -313,10 +316,10 @@ Theorem C07_jacobian_closed_forms : forall (cell : option RV) (mass : nat -> R) 
   (forall g1 g2 g3 g4 os, cvc_jd Rops PI cell mass pos (CDihedral g1 g2 g3 g4 os) = 0) /\
   (forall ids, gyr_value Rops pos ids <> 0 ->
      cvc_jd Rops PI cell mass pos (CGyration ids) = (3 * ofnat Rops (length ids) - 4) / cvc_value Rops PI cell mass pos (CGyration ids)) /\
-  (forall ids refs, 0 < rmsd_value Rops pos ids refs None ->
-     cvc_jd Rops PI cell mass pos (CRmsd ids refs None) = (3 * ofnat Rops (length ids) - 1) / cvc_value Rops PI cell mass pos (CRmsd ids refs None)) /\
-  (forall ids refs rc, 0 < rmsd_value Rops pos ids refs (Some rc) ->
-     cvc_jd Rops PI cell mass pos (CRmsd ids refs (Some rc)) = (3 * ofnat Rops (length ids) - 4) / cvc_value Rops PI cell mass pos (CRmsd ids refs (Some rc))) /\
+  (forall ids refs extra, 0 < cvc_value Rops PI cell mass pos (CRmsd ids refs extra None) ->
+     cvc_jd Rops PI cell mass pos (CRmsd ids refs extra None) = (3 * ofnat Rops (length ids) - 1) / cvc_value Rops PI cell mass pos (CRmsd ids refs extra None)) /\
+  (forall ids refs extra rc, 0 < cvc_value Rops PI cell mass pos (CRmsd ids refs extra (Some rc)) ->
+     cvc_jd Rops PI cell mass pos (CRmsd ids refs extra (Some rc)) = (3 * ofnat Rops (length ids) - 4) / cvc_value Rops PI cell mass pos (CRmsd ids refs extra (Some rc))) /\
   (forall ids refs evec c, cvc_jd Rops PI cell mass pos (CEigenvector ids refs evec c) = 0).
 Proof. exact thm_jacobian_closed_forms. Qed.
 Print Assumptions C07_jacobian_closed_forms.
@@ -355,7 +358,7 @@ Example C07_ex_eigenvector :
 Proof. exact ex_eigenvector. Qed.
 Example C07_ex_rotated :
   (forall v : RV, mvmul Rops ex_id (mtvmul Rops ex_id v) = v) /\
-  rmsdrot_value Rops ex_pos [0%nat; 1%nat] ex_refs ex_id <> 0.
+  rmsdrot_value Rops ex_pos [0%nat; 1%nat] ex_refs ex_id ex_refs <> 0.
 Proof. exact ex_rotated. Qed.
 (* a variable distance(0,1) - distance(2,3): inverse-correct at every geometry, coefficients +-1 *)
 Example C07_ex_variable : forall pos h sb sm kT,
